@@ -8,6 +8,8 @@ leaves = ["u8", "u16", "u32", "u64", "u128", "usize", "i8", "i16", "i32", "i64",
           "std::num::NonZeroU8", "std::num::NonZeroU32", "std::num::NonZeroI64", "std::sync::atomic::AtomicU32", "std::sync::atomic::AtomicBool",
           "std::ffi::OsString", "std::ffi::CString", "std::net::IpAddr", "std::net::Ipv4Addr", "std::any::TypeId",
           "fix::Plain", "fix::a::Same", "fix::b::Same", "fix::Wrapper<u8>", "fix::Wrapper<u16>", "fix::Pair<u8, u16>", "fix::Pair<u16, u8>",
+          "fix::a::SameGen<u8>", "fix::b::SameGen<u8>", "fix::a::SameGen<String>", "fix::b::SameGen<String>", "fix::a::SameEnum<u8, u16>", "fix::b::SameEnum<u8, u16>",
+          "fix::a::SameEnum<u16, u8>", "fix::a::SameGen<fix::b::SameGen<u8>>", "fix::b::SameGen<fix::a::SameGen<u8>>",
           "fix::Pair<u8, u8>", "fix::Wrapper<fix::Wrapper<u8>>", "fix::Triple<u8, u16, u32>", "fix::Triple<u32, u16, u8>", "fix::Triple<u8, u32, u16>"]
 unsized = ["str", "[u8]", "[u16]", "std::path::Path", "std::ffi::OsStr", "std::ffi::CStr"]
 unary_sized = ["Vec<{}>", "Option<{}>", "Box<{}>", "std::sync::Arc<{}>", "std::rc::Rc<{}>", "std::sync::Weak<{}>", "std::rc::Weak<{}>",
